@@ -1027,12 +1027,44 @@ def ck11(p, res):
     return n
 
 
+def ck13(p, res):
+    """never panics on a plaintext of another radix: an operation of poulpy-ckks that hands the limbs of a znx plaintext parameter (`pt`, `pt_znx`) to a core / HAL operation
+    together with a ciphertext is dominated, in the same function, by `ensure_base2k_match` (which returns PlaintextBase2KMismatch); the core operations assert equal radices"""
+    T2 = T + ("to_ref", "to_mut", "data", "data_mut", "inner", "inner_mut")
+    n = 0
+    for f in sorted(p.lib_fns(), key=lambda x: x.uid):
+        if f.kind == "Closure" or not f.blocks or not f.uid.startswith("poulpy_ckks::") or f.is_test():
+            continue
+        pn = f.param_names()
+        pts = [l for l, nm in pn.items() if nm.startswith("pt") and "Znx" in f.local_ty(l).get("s", "")]
+        if not pts:
+            continue
+        flow = Flow(f, transparent=T2)
+        g = CFG(f)
+        for bi, t in f.calls():
+            nm = (f.callee_def(t) or {}).get("n", "")
+            if not (nm.startswith("glwe_") or nm.startswith("vec_znx")) or nm.endswith("tmp_bytes"):
+                continue
+            if not any(any(r[0] == "param" and r[1] in pts for r in flow.op_roots(a)) for a in t["a"]):
+                continue
+            n += 1
+            ens = [b for b, t2 in f.calls() if (f.callee_def(t2) or {}).get("n") == "ensure_base2k_match" and g.dominates(b, bi)]
+            if ens:
+                res.ok("CK-13", {"fn": f.pretty, "call": nm})
+            else:
+                res.bad("CK-13", f.pretty, "plaintext-radix-unchecked:%s" % nm,
+                        "%s hands its znx plaintext to `%s` without `ensure_base2k_match`: for a plaintext of another base2k the core operation's radix assertion panics where the "
+                        "sibling operations return PlaintextBase2KMismatch" % (f.pretty, nm), site=f.where(t["l"]))
+    return n
+
+
 def run(res, tier):
     res.level = "other"
     res.explanation = ("Metadata-write and error-path discipline of the CKKS layer decided on MIR: who may write CKKSMeta, budget/precision subtractions guarded by a dominating comparison of the "
                        "same values, key lookups and checked arithmetic never unwrapped, destination metadata defined on every success return of out-of-place operations (interprocedural "
                        "summary), and equality fast paths consistent with the ordering branches that follow them. Slot values, error magnitudes and the numeric invariant "
                        "log_delta + log_budget <= max_k are not decided.")
+    res.rule("CK-13", "a core / HAL operation that receives a znx plaintext parameter of a CKKS operation is dominated by ensure_base2k_match")
     res.rule("CK-12", "value-preserving operations store a log_delta that does not exceed the log_delta of any operand they read (in-place forms: of dst itself too)")
     res.rule("CK-1", "stores to CKKS `meta` and from_inner(..) occur only in poulpy_ckks::{leveled::default, layouts, leveled::delegates::{composite,encryption}, encoding}")
     res.rule("CK-2", "usize `a - b` on budget/precision values is dominated by a comparison establishing a >= b over the same value numbers")
@@ -1072,6 +1104,8 @@ def run(res, tier):
         res.floor("CK-9", "ct x pt offset derivations", n9p, 2)
         n10 = ck10(p, res)
         res.floor("CK-10", "plaintext alignment queries", n10, 4)
+        n13 = ck13(p, res)
+        res.floor("CK-13", "core calls receiving a znx plaintext", n13, 4)
         n11 = ck11(p, res)
         res.floor("CK-11", "value-preserving operations with shifted operands", n11, 4)
         n6 = ck6(p, res)
